@@ -41,7 +41,7 @@ for k, nm in OPS:
 # ----------------------------------------------------------------------------- C09
 for op, txt in (("true", "add"), ("false", "sub")):
     add(H("C09", "c09_days_lt30_%s" % txt, "verif_k::c09::date_days_lt30", op, unwindset=(MEMCMP,), timeout=900,
-          about="DateItem::calculate: every date of years 1..9999 %s n days, 0<=n<30, is the calendar date exactly n days away" % txt))
+          about="DateItem::calculate: every date of years 1..9999 %s n days, -30<n<30 (negative counts too), is the calendar date exactly n days away" % txt))
 
 # ----------------------------------------------------------------------------- replay-only bodies (engine M/D counterexamples)
 for k in (0, 1, 2):
@@ -57,6 +57,12 @@ add(H("REPLAY", "m_replay_expression", "verif_k::c02::m_replay_expression", "", 
 add(H("REPLAY", "m_probe_all", "verif_k::c10::m_probe_all", "", kani=False))
 add(H("REPLAY", "m_replay_unit_calc", "verif_k::c12::m_replay_unit_calc", "", kani=False))
 add(H("REPLAY", "m_replay_format_number", "verif_k::c12::m_replay_format_number", "", kani=False))
+add(H("REPLAY", "m_replay_print_callers", "verif_k::c12::m_replay_print_callers", "", kani=False))
+add(H("REPLAY", "m_replay_token_pipeline", "verif_k::c02::m_replay_token_pipeline", "", kani=False))
+add(H("REPLAY", "m_replay_time_literal", "verif_k::c10::m_replay_time_literal", "", kani=False))
+add(H("REPLAY", "m_dump_rules", "verif_k::c10::m_dump_rules", "", kani=False))
+add(H("REPLAY", "m_replay_percent_phrase", "verif_k::c10::m_replay_percent_phrase", "", kani=False))
+add(H("REPLAY", "m_replay_wiring", "verif_k::c10::m_replay_wiring", "", kani=False))
 add(H("REPLAY", "d_dump_units", "verif_k::c12::d_dump_units", "", kani=False))
 add(H("REPLAY", "k_replay_set_text_lines", "verif_k::c04::k_replay_set_text_lines", "", kani=False))
 add(H("REPLAY", "k_replay_registration", "verif_k::c04::k_replay_registration", "", kani=False))
